@@ -574,5 +574,8 @@ M('c04-to-xml-reencoded-ascii-ignore', 'C04', 'R4', 'falcon/http_error.py', "   
   "        return self._to_xml().decode('utf-8').encode('ascii', 'ignore')\n")
 M('c04-to-xml-replaces-del-byte', 'C04', 'R4', 'falcon/http_error.py', "        return self._to_xml()\n",
   "        doc = self._to_xml()\n        return doc.replace(b'\\x7f', b'')\n")
-M('c04-to-json-strips-high-bytes', 'C04', 'R4', 'falcon/http_error.py', "        return handler.serialize(obj, MEDIA_JSON)\n",
-  "        import re\n        return re.sub(rb'[\\x80-\\x9f]', b'', handler.serialize(obj, MEDIA_JSON))\n")
+M2('c04-to-json-strips-high-bytes', 'C04', 'R4', [
+    {'file': 'falcon/http_error.py', 'old': "class HTTPError(Exception):\n", 'new': "import re\n\n\nclass HTTPError(Exception):\n"},
+    {'file': 'falcon/http_error.py', 'old': "        return handler.serialize(obj, MEDIA_JSON)\n",
+     'new': "        return re.sub(rb'[\\x80-\\x9f]', b'', handler.serialize(obj, MEDIA_JSON))\n"},
+])
